@@ -17,6 +17,7 @@ import math
 import numpy as np
 
 from mc import ref
+from mc.core import bfs
 
 EPS = 2.3e-16
 RULE = ("one state per (D, N_old, N_new, C, oddball_zero, basis function | delta) and per (D, N, L, indexing, basis function | delta, query point); "
@@ -94,7 +95,41 @@ def unit_map(u, rec):
             m_in = Dl.reshape(len(Dl), -1).mean(axis=1)
             m_out = gd.reshape(len(Dl), -1).mean(axis=1)
             rec.close(np.max(np.abs(m_out - m_in)), 1e3 * EPS, "C15/map/mean", "a resolution change does not preserve the mean", D=D, No=No, Nn=Nn, oddball_zero=oz)
-    rec.sample({"D": D, "N_old": No, "N_new": u["Nn"], "basis": len(basis), "deltas": len(Dl)})
+    # histories: BFS over sequences of resolution changes (depth 3) starting from a low-mode trigonometric polynomial; the reference model is the
+    # polynomial itself, sampled on whatever grid the state currently lives on; every path that never visits a grid with N <= 2*kmax must stay exact
+    if No >= 3:
+        low = [b for b in basis if max(abs(v) for v in b[0]) <= 1]
+        wl = ref.weights(len(low), u["seed"] + 2)
+        alphabet = sorted({n for n in (No - 1, No + 1, No + 2, 2 * No, 3, 4) if n >= 3 and n != No and n**D <= 4096})
+
+        def exact(N):
+            X_ = ref.grid(D, N, L)
+            return sum(wl[i] * ref.mode_field(low[i][0], X_, L, 1.0, 0.0 if low[i][1] == "c" else -np.pi / 2) for i in range(len(low)))[None]
+
+        def step(op, key, iv, mv):
+            # canonical model state: (current grid, path); the diamond check below compares states that reach the same grid by different paths
+            return (op, key[1] + (op,)), ex.map_between_resolutions(iv, op), None
+
+        def inv(key, iv, mv, trace):
+            f = np.asarray(iv)
+            want = exact(key[0])
+            ok = rec.check(f.shape == want.shape, "C15/history/shape", "state after a sequence of resolution changes has the wrong shape", D=D, path=[No] + list(key[1]))
+            if ok:
+                rec.close(float(np.max(np.abs(f - want))), 1e3 * EPS * float(np.sum(np.abs(wl))) * max([No] + list(key[1])) ** (D / 2) * (1 + len(trace)), "C15/history/value",
+                          "after a sequence of resolution changes a resolved low-mode state is no longer the same trigonometric polynomial", D=D, path=[No] + list(key[1]))
+                rec.outcome("hist", D, No, key[1], float(np.sum(f * f)))
+
+        bfs(rec, [((No, ()), jnp.asarray(exact(No)), None)], alphabet, step, inv, depth=3, label="C15/history")
+        # same exploration with the model-state key (current grid only): paths merge, and merged implementation states must agree (diamonds)
+        def step2(op, key, iv, mv):
+            return op, ex.map_between_resolutions(iv, op), None
+
+        def inv2(key, iv, mv, trace):
+            pass
+
+        bfs(rec, [(No, jnp.asarray(exact(No)), None)], alphabet, step2, inv2, depth=3,
+            same=lambda a, b: a.shape == b.shape and float(np.max(np.abs(np.asarray(a) - np.asarray(b)))) <= 1e-11 * float(np.sum(np.abs(wl))), label="C15/history")
+    rec.sample({"D": D, "N_old": No, "N_new": u["Nn"], "basis": len(basis), "deltas": len(Dl), "history_alphabet": "resolutions {N-1,N+1,N+2,2N,3,4}, depth 3"})
 
 
 QUERY_1D = [0.0, 0.123456, 1 / 3, math.sqrt(2) / 3, 0.999, 1.0, 1.75, -0.4, -2.0 + 0.3, 2.5]
